@@ -60,6 +60,7 @@ static int openssl_sign_sha_hmac(jwt_t *jwt, char **out, unsigned int *len,
 	if (*out == NULL)
 		return 1; // LCOV_EXCL_LINE
 
+	JWT_VERIF_PRIMITIVE("openssl:hmac", jwt);
 	if (HMAC(alg, key, key_len, (const unsigned char *)str, str_len,
 		 (unsigned char *)*out, len) == NULL) {
 		// LCOV_EXCL_START
@@ -209,6 +210,7 @@ static int openssl_sign_sha_pem(jwt_t *jwt, char **out, unsigned int *len,
 	if (mdctx == NULL)
 		SIGN_ERROR("Error creating MD context"); // LCOV_EXCL_LINE
 
+	JWT_VERIF_PRIMITIVE("openssl:sign", jwt);
 	/* Initialize the DigestSign operation using alg */
 	if (EVP_DigestSignInit(mdctx, &pkey_ctx, alg, NULL, pkey) != 1)
 		SIGN_ERROR("Failued to initialize digest"); // LCOV_EXCL_LINE
@@ -388,6 +390,7 @@ static int openssl_verify_sha_pem(jwt_t *jwt, const char *head,
 	if (mdctx == NULL)
 		VERIFY_ERROR("Error creatign MD context"); // LCOV_EXCL_LINE
 
+	JWT_VERIF_PRIMITIVE("openssl:verify", jwt);
 	/* Initialize the DigestVerify operation using alg */
 	if (EVP_DigestVerifyInit(mdctx, &pkey_ctx, alg, NULL, pkey) != 1)
 		VERIFY_ERROR("Error initializing mdctx"); // LCOV_EXCL_LINE
